@@ -4,6 +4,7 @@ package main
 
 import (
 	"fmt"
+	"go/token"
 	"sort"
 	"strings"
 
@@ -128,6 +129,9 @@ func (c *Ctx) isLeafPredicate(fn *ssa.Function) bool {
 func (c *Ctx) allElemsLeafPredicate(fn *ssa.Function) bool {
 	if fn == nil || len(fn.Params) != 1 || fn.Blocks == nil {
 		return false
+	}
+	if c.allElemsByContainsFunc(fn) {
+		return true
 	}
 	sawLoop := false
 	for _, b := range fn.Blocks {
@@ -674,4 +678,73 @@ func ruleVALEXACT(c *Ctx, r *Report) {
 		}
 	}
 	r.floor(rule, "error paths of validators", n, 30)
+}
+
+// allElemsByContainsFunc: fn(x) is `list, ok := x.([]*Expression); return ok && !slices.ContainsFunc(list,
+// func(v) bool { return !leaf(v) })` — every true return is the negation of a search for a non-leaf.
+func (c *Ctx) allElemsByContainsFunc(fn *ssa.Function) bool {
+	nTrue := 0
+	for _, b := range fn.Blocks {
+		for _, in := range b.Instrs {
+			ret, ok := in.(*ssa.Return)
+			if !ok || len(ret.Results) != 1 {
+				continue
+			}
+			var vals []ssa.Value
+			if ph, isPhi := ret.Results[0].(*ssa.Phi); isPhi {
+				vals = ph.Edges
+			} else {
+				vals = []ssa.Value{ret.Results[0]}
+			}
+			for _, v := range vals {
+				if k, isC := constBoolVal(v); isC {
+					if k {
+						return false // an unconditional true
+					}
+					continue
+				}
+				not, ok := v.(*ssa.UnOp)
+				if !ok || not.Op != token.NOT {
+					return false
+				}
+				call, ok := not.X.(*ssa.Call)
+				if !ok || call.Call.StaticCallee() == nil || !strings.HasPrefix(call.Call.StaticCallee().String(), "slices.ContainsFunc[") || len(call.Call.Args) != 2 {
+					return false
+				}
+				if c.key(call.Call.Args[0], nil) != "$0.([]*expr.Expression)" {
+					return false
+				}
+				var pred *ssa.Function
+				switch f := call.Call.Args[1].(type) {
+				case *ssa.Function:
+					pred = f
+				case *ssa.MakeClosure:
+					pred, _ = f.Fn.(*ssa.Function)
+				}
+				if pred == nil || len(pred.Params) != 1 || len(pred.Blocks) != 1 {
+					return false
+				}
+				// pred(v) = !leaf(v)
+				okPred := false
+				for _, pin := range pred.Blocks[0].Instrs {
+					if pr, ok := pin.(*ssa.Return); ok && len(pr.Results) == 1 {
+						if n2, ok := pr.Results[0].(*ssa.UnOp); ok && n2.Op == token.NOT {
+							if lc, ok := n2.X.(*ssa.Call); ok && lc.Call.StaticCallee() != nil && c.isLeafPredicate(lc.Call.StaticCallee()) && len(lc.Call.Args) == 1 {
+								arg := lc.Call.Args[0]
+								if mi, ok := arg.(*ssa.MakeInterface); ok {
+									arg = mi.X
+								}
+								okPred = arg == ssa.Value(pred.Params[0])
+							}
+						}
+					}
+				}
+				if !okPred {
+					return false
+				}
+				nTrue++
+			}
+		}
+	}
+	return nTrue > 0
 }
